@@ -84,6 +84,7 @@ type fakeClient struct {
 	pingErr  func() error
 	closeEnd bool // CloseStream answers with End(ErrDCPStreamClosed) like the server
 	openHook func(vb uint16)
+	holdOpen map[uint16]chan struct{} // OpenStream of these vBuckets returns only after release (request logged at entry)
 }
 
 func newFakeClient(buf *obuf, nvb int) *fakeClient {
@@ -140,6 +141,12 @@ func (c *fakeClient) OpenStream(vbID uint16, _ map[uint32]string, off *models.Of
 	hook := c.openHook
 	c.mu.Unlock()
 	c.buf.add(fmt.Sprintf("openreq %d %s", vbID, fmtOff(off)))
+	c.mu.Lock()
+	hold := c.holdOpen[vbID]
+	c.mu.Unlock()
+	if hold != nil {
+		<-hold
+	}
 	o.SetVbUUID(gocbcore.VbUUID(u))
 	if hook != nil {
 		hook(vbID)
@@ -163,6 +170,15 @@ func (c *fakeClient) GetCollectionIDs(string, []string) (map[uint32]string, erro
 func (c *fakeClient) GetAgentConfigSnapshot() (*gocbcore.ConfigSnapshot, error)    { return c.snap, nil }
 func (c *fakeClient) GetDcpAgentConfigSnapshot() (*gocbcore.ConfigSnapshot, error) { return c.snap, nil }
 func (c *fakeClient) GetAgentQueues() []*models.AgentQueue                        { return nil }
+func (c *fakeClient) releaseHolds() {
+	c.mu.Lock()
+	defer c.mu.Unlock()
+	for vb, ch := range c.holdOpen {
+		close(ch)
+		delete(c.holdOpen, vb)
+	}
+}
+
 func (c *fakeClient) observer(vb uint16) couchbase.Observer {
 	c.mu.Lock()
 	defer c.mu.Unlock()
